@@ -157,7 +157,9 @@ func isDocumentedRejection(rec any, err error) bool {
 	for _, k := range []string{"base must be lesser than two", "base must be greater than 0", "failed to reach precision", "token amount must be positive",
 		"Int overflow", "overflow", "must be positive", "too many shares out", "cannot exit all shares", "decimal out of range", "out of bound",
 		"cannot input more than pool reserves", "invalid input", "invalid output", "hit maximum iterations", "k should never be zero", "negative coin amount",
-		"pool liquidity is too", "scaled", "division by zero", "exceeds max", "too few shares", "insufficient", "is not positive", "not positive", "more coins joined", "exponent"} {
+		"pool liquidity is too", "scaled", "division by zero", "exceeds max", "too few shares", "insufficient", "is not positive", "not positive", "more coins joined", "exponent",
+		// a swap whose rounded output would be the pool's whole balance of an asset is refused (repair of the C02 drain defect)
+		"more tokens out of the pool than exist"} {
 		if strings.Contains(s, k) {
 			return true
 		}
@@ -361,6 +363,7 @@ func runC04(c *vk.Ctx) {
 						return
 					}
 					exactSh := bfNew().Mul(bfI(S), bfNew().Sub(bf(1), bfPow(y, nw)))
+					c.Logf("  -> shares burned %s, exact %s", sh, exactSh.Text('f', 6))
 					sig["pow_base_below_half"] = y.Cmp(bf(0.5)) < 0
 					outcome = c04Compare(c, sig, "shares-in", bfI(sh), exactSh, c04Tol(bfI(S), y, nw, nil), true, false, nil)
 				case 7: // closed loop A -> B -> A in the exact sub-family
